@@ -2946,6 +2946,8 @@ def r104(ctx: Ctx) -> RuleReport:
                     continue
                 if all(isinstance(d.value, ast.Constant) for d in defs_in):
                     continue
+                if all(isinstance(d.value, ast.Constant) or any(isinstance(x, ast.Name) and x.id == v for x in ast.walk(d.value)) for d in defs_in):
+                    continue                    # a flag: set to constants here, combined with its own old value there (x = x and y  is  x &= y)
                 data_defs = [d for d in defs_in if any(isinstance(x, ast.Name) and x.id in derived for x in ast.walk(d.value))]
                 if not data_defs:
                     continue
